@@ -231,7 +231,7 @@ pub fn rule_value(unknown: bool) -> BoxedStrategy<String> {
 
 pub fn benign_doc() -> BoxedStrategy<Doc> {
     prop_oneof![
-        select(vec![" A plain comment", " Describes the thing.", " See also: other (1 < 2) & more", " trailing space ", "no leading space"]).prop_map(|s| Doc::Line(s.to_string())),
+        select(vec![" A plain comment", " Describes the thing.", " See also: other (1 < 2) & more", " trailing space ", "no leading space", " Matches src/**/*.rs files"]).prop_map(|s| Doc::Line(s.to_string())),
         select(vec![" block doc ", " with `ticks` and 'quotes' "]).prop_map(|s| Doc::Block(s.to_string())),
         select(vec!["attr doc", " quoted \"text\" here"]).prop_map(|s| Doc::Attr(s.to_string())),
     ]
